@@ -59,6 +59,7 @@ type World struct {
 	reloads  int32
 	procs    sync.Map // goid -> proc name
 	Jitter   int      // free-running mode: random micro-delays at seams (0 = none)
+	Hot      bool     // hot stress: no seams, no per-query events
 	data     map[int]map[string][][]byte
 	dataMu   sync.Mutex
 }
@@ -119,6 +120,9 @@ func (w *World) Proc() string {
 
 // At is called at every seam; with a scheduler installed it may park the calling goroutine.
 func (w *World) At(point string) {
+	if w.Hot {
+		return
+	}
 	if s := w.Sched; s != nil {
 		s.at(w.Proc(), point)
 		return
@@ -199,6 +203,7 @@ type Backend struct {
 	Path   string
 	view   int32
 	open   bool
+	openA  int32 // mirror of open for lock-free reads on the hot path
 	closes int
 	uses   int64
 }
@@ -215,7 +220,7 @@ func (w *World) OpenBackend(path string) (*Backend, error) {
 		w.mu.Unlock()
 		return nil, fmt.Errorf("sim: nothing published at %s", path)
 	}
-	b := &Backend{W: w, ID: len(w.Backends) + 1, Path: path, view: int32(g), open: true}
+	b := &Backend{W: w, ID: len(w.Backends) + 1, Path: path, view: int32(g), open: true, openA: 1}
 	w.Backends = append(w.Backends, b)
 	w.mu.Unlock()
 	w.Log(Event{Ev: "open", Backend: b.ID, Path: path, Gen: g})
@@ -227,10 +232,7 @@ func (b *Backend) View() int { return int(atomic.LoadInt32(&b.view)) }
 
 // touch records a use; a use of a closed backend is the C06 violation.
 func (b *Backend) touch(method string) bool {
-	atomic.AddInt64(&b.uses, 1)
-	b.W.mu.Lock()
-	open := b.open
-	b.W.mu.Unlock()
+	open := atomic.LoadInt32(&b.openA) == 1
 	if !open {
 		b.W.Log(Event{Ev: "uac", Backend: b.ID, Method: method})
 	}
@@ -313,6 +315,7 @@ func (b *Backend) Close() error {
 	b.W.mu.Lock()
 	was := b.open
 	b.open = false
+	atomic.StoreInt32(&b.openA, 0)
 	b.closes++
 	b.W.mu.Unlock()
 	if !was {
